@@ -282,7 +282,8 @@ def _codec_case(res, name, form):
 
 # ---------------- (c) fetcher graphs
 
-ANSWERS = ['text', 'bytes', 'none', 'nonepair', 'raises-oserror', 'reenter', 'reenter-style']
+ANSWERS = ['text', 'bytes', 'none', 'nonepair', 'raises-oserror', 'reenter', 'reenter-style', 'bytes-unknown-transport-charset', 'bytes-unknown-charset-rule',
+           'bytes-non-text-codec', 'bytes-undecodable']
 
 
 def _graph_case(res, n, edges, answer, case):
@@ -310,6 +311,14 @@ def _graph_case(res, n, edges, answer, case):
             raise OSError('virtual fetch failure')
         if answer == 'bytes':
             return ('utf-8', t.encode('utf-8'))
+        if answer == 'bytes-unknown-transport-charset':
+            return ('x-no-such-encoding', t.encode('utf-8'))
+        if answer == 'bytes-unknown-charset-rule':
+            return (None, b'@charset "x-no-such-encoding";' + t.encode('utf-8'))
+        if answer == 'bytes-non-text-codec':
+            return ('rot13', t.encode('utf-8'))
+        if answer == 'bytes-undecodable':
+            return ('ascii', b'\xff\xfe' + t.encode('utf-8'))
         if answer == 'reenter':
             # an application-wide parser whose fetcher normalises what it fetched with that same parser
             inner = holder[0].parseString(f'b{{x:y;w}} }}')
